@@ -84,6 +84,15 @@ fn maybe_meet_iteration_start<'i>(
     trace_ctx: &mut TraceHandler,
 ) -> ExecutionResult<()> {
     if let IterableType::Stream(fold_id) = &fold_state.iterable_type {
+        #[cfg(aquavm_verif)]
+        {
+            let item = fold_state.iterable.peek().expect(PEEK_ALLOWED_ON_NON_EMPTY);
+            crate::verif_hooks::emit(crate::verif_hooks::Event::FoldIteration {
+                fold_id: *fold_id,
+                value_pos: item.pos().into(),
+                value: item.into_resolved_result().get_result().to_string(),
+            });
+        }
         trace_to_exec_err!(
             trace_ctx.meet_iteration_start(
                 *fold_id,
